@@ -509,6 +509,36 @@ def lowerDict (ext : Bool) : List (PyKey × PyVal) → Except EncErr (List (List
       | .ok ys => .ok ((k, y) :: ys)
 end
 
+mutual
+/-- What the objects are to a caller's `json_default` that does NOT end by calling
+`eliot.json.json_default` (it knows its own `custom` objects and raises `TypeError` otherwise):
+paths, sets and complex numbers are then unsupported objects.  Dates and times are unaffected:
+orjson serialises them itself and never hands them to `default`.
+`lower true (ownView o)` is the traversal under such a function. -/
+def ownView : PyVal → PyVal
+  | .null => .null
+  | .bool b => .bool b
+  | .int i => .int i
+  | .float t => .float t
+  | .str s => .str s
+  | .list xs => .list (ownViewList xs)
+  | .dict kvs => .dict (ownViewDict kvs)
+  | .path _ => .unsupported
+  | .date iso => .date iso
+  | .time iso => .time iso
+  | .timeTz => .timeTz
+  | .set _ => .unsupported
+  | .complex _ _ => .unsupported
+  | .custom p => .custom (ownView p)
+  | .unsupported => .unsupported
+def ownViewList : List PyVal → List PyVal
+  | [] => []
+  | x :: xs => ownView x :: ownViewList xs
+def ownViewDict : List (PyKey × PyVal) → List (PyKey × PyVal)
+  | [] => []
+  | (k, v) :: kvs => (k, ownView v) :: ownViewDict kvs
+end
+
 /-- the compact JSON text of `o` as code points, before it is UTF-8 encoded -/
 def dumpsCP (ext : Bool) (o : PyVal) : Except EncErr (List Nat) :=
   match lower ext o with
